@@ -79,3 +79,46 @@ def dfs(run_one, bound, max_runs, info=None):
 def random_runs(run_one, rng, n, switch_prob=0.5):
     for _ in range(n):
         yield run_one(detsched.random_chooser(rng, switch_prob))
+
+
+def park_chooser(victim, k):
+    """thread `victim` runs ahead whenever it can until it has taken `k` steps, is then parked while any other thread can
+    run, and resumes when nobody else can.  Finds the "one thread stalls at one line while the others complete a whole
+    call" interleavings that random line-level preemption hits only with vanishing probability."""
+    state = {"steps": 0, "last": None, "resumed": False}
+
+    def choose(s, en):
+        vic = next((t for t in en if t.name == victim), None)
+        others = [t for t in en if t.name != victim]
+        if vic is not None and state["steps"] < k:
+            pick = vic
+        elif not state["resumed"] and state["steps"] >= k and others:
+            pick = next((t for t in others if t.name == state["last"]), None) or others[0]
+        else:
+            if state["steps"] >= k and vic is not None and not others:
+                state["resumed"] = True
+            pick = next((t for t in en if t.name == state["last"]), None) or en[0]
+        if pick.name == victim:
+            state["steps"] += 1
+        state["last"] = pick.name
+        return pick
+
+    return choose
+
+
+def park_runs(run_one, max_points=400, stride=1, victims=None):
+    """one reference run to learn the thread names and how many steps each takes, then one run per (thread, parking
+    point), the budget spread evenly over the threads and over each thread's steps"""
+    sched, result = run_one(prefix_chooser([]))
+    yield sched, result
+    counts = {}
+    for _step, _clk, _en, chosen, _label in sched.trace:
+        counts[chosen] = counts.get(chosen, 0) + 1
+    names = [n for n in counts if victims is None or any(n.startswith(v) for v in victims)]
+    if not names:
+        return
+    per = max(1, max_points // len(names))
+    for n in names:
+        step = max(stride, -(-counts[n] // per))
+        for k in range(1, counts[n] + 1, step):
+            yield run_one(park_chooser(n, k))
